@@ -548,3 +548,128 @@ def static_offsets_case(name, perm, checked, tampers=(), timeout=900):
             res["tampers"].append(("%s %s[%d]%+d" % (mname, which, idx, delta), rc, so, se))
     shutil.rmtree(d, ignore_errors=True)
     return res
+
+
+# ------------------------------------------------------------------------------------------------
+# C01 / C10: a whole program through the real registration templates and std_rtti
+
+def prog_dispatch(reg, rng, grouping="one", policy="default", max_calls=300):
+    """a program declaring the classes of `reg` (virtual inheritance, pure virtual functions for the
+    abstract ones), registering them through the real templates in one of several groupings, declaring and
+    defining its methods with the real macros, and calling every method on tuples of concrete classes.
+    Returns (source, oracle script lines): the program prints one line per call in the oracle's format."""
+    import gen
+    n = len(reg.parents)
+    anc = gen.ancestors(reg.parents)
+    desc = gen.descendants(reg.parents)
+    ids = [1000 + i for i in range(n)]
+    concrete = [i for i in range(n) if not reg.abstract[i]]
+    cls = []
+    for i in range(n):
+        bases = ", ".join("virtual K%d" % b for b in reg.parents[i])
+        body = ["virtual ~K%d() {}" % i] if not reg.parents[i] else []
+        if reg.abstract[i]:
+            body.append("virtual void abs%d() = 0;" % i)
+        for a in sorted(anc[i]):
+            if reg.abstract[a]:
+                body.append("void abs%d() override {}" % a)
+        cls.append("struct K%d%s { %s };" % (i, (" : " + bases) if bases else "", " ".join(body)))
+    if grouping == "one":
+        regs = ["register_classes(%s);" % ", ".join("K%d" % i for i in range(n))]
+    elif grouping == "direct":
+        order = list(range(n))
+        rng.shuffle(order)
+        regs = ["use_classes<%s> YOMM2_GENSYM;" % ", ".join(["K%d" % i] + ["K%d" % b for b in reg.parents[i]]) for i in order]
+    else:  # "split": each class with its direct bases and some further ancestors, groups in random order
+        order = list(range(n))
+        rng.shuffle(order)
+        regs = []
+        for i in order:
+            extra = [a for a in sorted(anc[i]) if a not in reg.parents[i] and rng.random() < 0.5]
+            members = [i] + reg.parents[i] + extra
+            rng.shuffle(members)
+            regs.append("use_classes<%s> YOMM2_GENSYM;" % ", ".join("K%d" % c for c in members))
+    decls, defs, calls, script = [], [], [], []
+    for h, i in enumerate(range(n)):
+        script.append("class %d %d %d %s" % (h + 1, ids[i], 1 if reg.abstract[i] else 0, " ".join(str(ids[c]) for c in [i] + sorted(anc[i]))))
+    pol = "" if policy == "default" else ", " + policy
+    for m in reg.methods:
+        kinds = [ch for ch in m["shape"]]
+        vps = iter(m["vp"])
+        params, vparam = [], []
+        for ch in kinds:
+            if ch == "N":
+                params.append("int")
+            else:
+                c = next(vps)
+                params.append(("virtual_<K%d&>" % c) if ch == "V" else ("virtual_ptr<K%d%s>" % (c, pol)))
+                vparam.append((ch, c))
+        decls.append("declare_method(int, m%d, (%s)%s);" % (m["key"], ", ".join(params), pol))
+        script.append("method %d %s %s" % (m["key"], m["shape"], " ".join(str(ids[c]) for c in m["vp"])))
+        for d, vp in m["defs"]:
+            it = iter(vp)
+            ps = []
+            for ch in kinds:
+                if ch == "N":
+                    ps.append("int")
+                else:
+                    c = next(it)
+                    ps.append(("K%d&" % c) if ch == "V" else ("virtual_ptr<K%d%s>" % (c, pol)))
+            defs.append("define_method(int, m%d, (%s)) { return %d; }" % (m["key"], ", ".join(ps), d))
+            script.append("def %d %d %s" % (m["key"], d, " ".join(str(ids[c]) for c in vp)))
+    script.append("update")
+    for m in reg.methods:
+        doms = [[c for c in desc[v] if c in concrete] for v in m["vp"]]
+        if any(not d_ for d_ in doms):
+            continue
+        total = 1
+        for d_ in doms:
+            total *= len(d_)
+        import itertools
+        tuples = list(itertools.product(*doms)) if total <= max_calls else [tuple(rng.choice(d_) for d_ in doms) for _ in range(max_calls)]
+        for t in tuples:
+            it = iter(zip(m["vp"], t))
+            args = []
+            for ch in m["shape"]:
+                if ch == "N":
+                    args.append("7")
+                else:
+                    v, c = next(it)
+                    ref = "static_cast<K%d&>(o%d)" % (v, c)
+                    args.append(ref if ch == "V" else "virtual_ptr<K%d%s>(%s)" % (v, pol, ref))
+            calls.append("run([&] { return m%d(%s); });" % (m["key"], ", ".join(args)))
+            script.append("call %d %s" % (m["key"], " ".join(str(ids[c]) for c in t)))
+    polt = "YOMM2_DEFAULT_POLICY" if policy == "default" else policy
+    src = r'''
+#include <yorel/yomm2/keywords.hpp>
+#include <cstdio>
+#include <map>
+#include <typeinfo>
+using namespace yorel::yomm2;
+%(classes)s
+%(regs)s
+%(decls)s
+%(defs)s
+%(objects)s
+static std::map<type_id, int> idof;
+template<class F> static void run(F f) {
+    try { std::printf("ran %%d\n", f()); }
+    catch (const resolution_error& e) {
+        std::printf("raised resolution status=%%s arity=%%d types=[", e.status == resolution_error::no_definition ? "ni" : "amb", (int)e.arity);
+        for (std::size_t i = 0; i < e.arity; ++i) std::printf(i ? ",%%d" : "%%d", idof.count(e.types[i]) ? idof[e.types[i]] : -1);
+        std::printf("]\n");
+    }
+}
+int main() {
+%(idmap)s
+    update<%(polt)s>();
+    %(polt)s::error = [](const error_type& e) { if (auto r = std::get_if<resolution_error>(&e)) throw *r; };
+    std::printf("update ok\n");
+%(calls)s
+    return 0;
+}
+''' % {"classes": "\n".join(cls), "regs": "\n".join(regs), "decls": "\n".join(decls), "defs": "\n".join(defs),
+       "objects": "\n".join("static K%d o%d;" % (c, c) for c in concrete),
+       "idmap": "\n".join("    idof[(type_id)&typeid(K%d)] = %d;" % (i, ids[i]) for i in range(n)),
+       "polt": polt, "calls": "\n".join("    " + c for c in calls)}
+    return src, script
